@@ -892,7 +892,9 @@ class DiscreteFactor(BaseFactor, StateNameMixin):
         copy.variables = [*self.variables]
         copy.cardinality = np.array(self.cardinality)
         copy.values = compat_fns.copy(self.values)
-        copy.state_names = self.state_names.copy()
+        copy.state_names = {
+            var: list(names) for var, names in self.state_names.items()
+        }
         copy.no_to_name = self.no_to_name.copy()
         copy.name_to_no = self.name_to_no.copy()
         return copy
